@@ -220,7 +220,7 @@ func (w *World) probeFaults(ev Event) bool {
 			// the other manifestations of the same failure (FaultPlan.Alt)
 			alts := 0
 			switch kind {
-			case DepLoadAccount, DepPauseLookup:
+			case DepLoadAccount, DepPauseLookup, DepUnmarshal:
 				alts = 2
 			case DepIsPayable:
 				alts = 1
